@@ -10,8 +10,18 @@ import bind.llc_peer as LP
 
 REAL = {"n1": b"urn:nfc:sn:svc1", "n2": b"urn:nfc:sn:svc2", "n3": b"urn:nfc:sn:svc3", "n4": b"urn:nfc:sn:svc4",
         "wk": b"urn:nfc:sn:snep"}
+
+
+def _name(tag, n):
+    return (b"urn:nfc:sn:" + tag + b"-" + b"x" * 200)[:n]
+
+
+# names whose SDREQ TLVs (3 + length) sit around what is left of an SNL PDU at MIU 128
+REAL.update(L70a=_name(b"a", 70), L70b=_name(b"b", 70), S16=_name(b"s", 16), L60a=_name(b"a", 60), L60b=_name(b"b", 60),
+            L60c=_name(b"c", 60), L120=_name(b"a", 120), S3a=b"s3a", S3b=b"s3b")
 ABST = {v: k for k, v in REAL.items()}
-BOUND = ("n1", "n2", "wk")            # what the peer binds (n1 -> 16, n2 -> 17, wk -> 4); n3, n4 stay unbound
+# what the peer binds, in this order: n1 -> 16, n2 -> 17, wk -> 4, L70a -> 18, L70b -> 19, S16 -> 20, L60a -> 21, L120 -> 22
+BOUND = ("n1", "n2", "wk", "L70a", "L70b", "S16", "L60a", "L120")
 RNONE, RKEYERR, ROTHER = -2, -3, -4
 
 # resolver programs: thread -> names resolved one after the other
@@ -23,11 +33,19 @@ PROGRAMS = [
     dict(r1=["n1"], r2=["n2"], r3=["n3"]),
     dict(r1=["n1"], r2=["n1"], r3=["n2", "n1"]),
     dict(r1=["wk", "n4"], r2=["n4"], r3=["n2"]),
+    # three and four lookups pending at once, one does not fit what is left of the SNL PDU and a later one does
+    dict(r1=["L70a"], r2=["L70b"], r3=["S16"]),
+    dict(r1=["L60a"], r2=["L60b"], r3=["L60c"]),
+    dict(r1=["L120"], r2=["S3a"], r3=["S3b"]),
+    dict(r1=["S16"], r2=["L70a"], r3=["L70b"]),
+    dict(r1=["L70a"], r2=["L70b"], r3=["S16"], r4=["n1"]),
+    dict(r1=["L60a"], r2=["L120"], r3=["S3a"], r4=["L60b"]),
 ]
-POLICIES = ("separate", "batched", "reverse", "never", "some-then-never")
+SIZED = range(7, 13)
+POLICIES = ("separate", "batched", "reverse", "never", "some-then-never", "hold")      # hold: nothing is collected before every resolver waits
 
 
-def run_case(prog, policy, chooser, seed, max_steps=4000):
+def run_case(prog, policy, chooser, seed, max_steps=4000, miu=128):
     """One schedule.  Returns (trace events, outcome, picks)."""
     import nfc.llcp
     import nfc.llcp.llc as llc_mod
@@ -40,10 +58,10 @@ def run_case(prog, policy, chooser, seed, max_steps=4000):
     box = {}
     try:
         def setup():
-            A = llc_mod.LogicalLinkController(miu=128, sec=False)
-            B = llc_mod.LogicalLinkController(miu=128, sec=False)
+            A = llc_mod.LogicalLinkController(miu=miu, sec=False)
+            B = llc_mod.LogicalLinkController(miu=miu, sec=False)
             for x in (A, B):
-                x.cfg["send-miu"], x.cfg["llcp-dpc"] = 128, 0
+                x.cfg["send-miu"], x.cfg["llcp-dpc"] = miu, 0
             keep = []
             for n in BOUND:
                 s = nfc.llcp.Socket(B, nfc.llcp.DATA_LINK_CONNECTION)
@@ -78,8 +96,10 @@ def run_case(prog, policy, chooser, seed, max_steps=4000):
             idle = 0
             while any(t.state != S.DONE for t in res) and idle < 60:
                 did = False
+                parked0 = all(t.state in (S.WAITING, S.DONE) for t in res)
                 with A.lock:
-                    f = None if ended else A.collect()          # a terminated controller collects nothing
+                    # a terminated controller collects nothing
+                    f = None if ended or (policy == "hold" and not parked0) else A.collect()
                     if f is not None:
                         pdus = list(f) if f.name == "AGF" else [f]
                         for p in pdus:
@@ -91,7 +111,7 @@ def run_case(prog, policy, chooser, seed, max_steps=4000):
                 if to_b and (policy != "batched" or parked):
                     while to_b:
                         B.dispatch(pdu_mod.decode(to_b.pop(0)))
-                        if policy in ("separate", "reverse", "never", "some-then-never"):
+                        if policy in ("separate", "reverse", "never", "some-then-never", "hold"):
                             g = B.collect()
                             if g is not None:
                                 to_a.append(g)
@@ -150,26 +170,35 @@ def make_chooser(kind, arg, seed):
 
 
 def cases(quick, seed):
-    n = 0
     for pi, prog in enumerate(PROGRAMS):
-        for policy in POLICIES:
+        if pi in SIZED:
+            # the queue order is what matters here: every order the scheduler can produce, few frame policies
+            for policy, miu in (("hold", 128), ("batched", 128), ("separate", 128), ("hold", 248)):
+                if quick and (policy == "separate" or (miu == 248 and pi % 2)):
+                    continue
+                for kind, arg in schedules(prog, quick):
+                    if quick and kind == "pre" and arg[0] % 10:
+                        continue
+                    yield dict(pi=pi, policy=policy, kind=kind, arg=arg, miu=miu)
+            continue
+        for policy in POLICIES[:5]:
             if quick and (pi + POLICIES.index(policy)) % 2 and pi not in (0, 1):
                 continue                                    # quick tier: half of the grid for the larger programs
             for kind, arg in schedules(prog, quick):
-                n += 1
-                yield dict(pi=pi, policy=policy, kind=kind, arg=arg)
+                yield dict(pi=pi, policy=policy, kind=kind, arg=arg, miu=128)
 
 
 def trace_of(case, seed):
     ch = make_chooser(case["kind"], case["arg"], seed)
-    ev, outcome, picks = run_case(PROGRAMS[case["pi"]], case["policy"], ch, seed)
+    miu = case.get("miu", 128)
+    ev, outcome, picks = run_case(PROGRAMS[case["pi"]], case["policy"], ch, seed, miu=miu)
     arg = case["arg"]
     tag = "fair" if case["kind"] == "fair" else ("p%d%s" % (arg[0], arg[1]) if case["kind"] == "pre" else "r%d" % arg)
-    return dict(id="res-%d-%s-%s" % (case["pi"], case["policy"], tag), const=dict(), ev=ev), outcome
+    return dict(id="res-%d-%s-%d-%s" % (case["pi"], case["policy"], miu, tag), const=dict(miu=miu), ev=ev), outcome
 
 
 # ------------------------------------------------------------------------------------------------
-RES_WITNESSES = ["W_ForeignWake", "W_TwoWaiting", "W_SameName", "W_NoneReturn", "W_Absent", "W_CachedCall"]
+RES_WITNESSES = ["W_ForeignWake", "W_Skipped", "W_TwoWaiting", "W_SameName", "W_NoneReturn", "W_Absent", "W_CachedCall"]
 
 
 def classify(tr, line, act, why):
@@ -180,6 +209,8 @@ def classify(tr, line, act, why):
         return "resolve:exception-raised"
     if act == "Return":
         return "resolve:wrong-address-returned"
+    if act == "Collect":
+        return "resolve:SNL-PDU-carries-other-SDREQ-than-the-queue-order-and-budget-allow"
     if act == "Deadlock":
         return "resolve:thread-never-returned(%s)" % ev.get("outcome")
     return "resolve:%s@%s" % (why[0] if why else "?", act)
@@ -195,11 +226,19 @@ def stage(ck, tier, seed, tlc):
         ck.violation("spec:LlcpResolve:" + ",".join(r.violated or ["deadlock"]),
                      "TLC found a violation in the resolver model: %s" % (r.error_trace or "")[:2000])
     ck.cover(states=r.distinct, transitions=r.generated)
+    r3 = tlc.run("MC_LlcpResolve.tla", "MC_LlcpResolve_q3.cfg", "C17/resolve3", workers=6, timeout=300)      # three resolvers, one call each
+    if not r3.ok:
+        ck.violation("spec:LlcpResolve(3):" + ",".join(r3.violated or ["deadlock"]),
+                     "TLC found a violation in the resolver model: %s" % (r3.error_trace or "")[:2000])
+    ck.cover(states=r3.distinct, transitions=r3.generated)
+    pop = tlc.run("MC_LlcpResolve.tla", "MC_LlcpResolve_pophead.cfg", "C17/resolve_pop", workers=2, timeout=300)
+    if "Recorded" not in pop.violated:
+        raise tlc.TLCError("the pop-the-head variant of the resolver model does not violate Recorded: vacuous")
     wrong = tlc.run("MC_LlcpResolve.tla", "MC_LlcpResolve_if.cfg", "C17/resolve_if", workers=2, timeout=300)
     if "ResolveReturns" not in wrong.violated:
         raise tlc.TLCError("the `if ...: wait()` variant of the resolver model does not violate ResolveReturns: vacuous")
     wit = RES_WITNESSES[:2] if quick else RES_WITNESSES
-    hit, _ = tlc.witnesses("MC_LlcpResolve.tla", "MC_LlcpResolve.cfg", "C17/wres", wit, workers=2)
+    hit, _ = tlc.witnesses("MC_LlcpResolve.tla", "MC_LlcpResolve_q3.cfg", "C17/wres", wit, workers=2)
     if set(wit) - hit:
         raise tlc.TLCError("vacuous resolver model: witnesses not reached: %s" % sorted(set(wit) - hit))
     traces, meta, seen, nsched, outcomes = [], {}, set(), 0, {}
@@ -207,7 +246,7 @@ def stage(ck, tier, seed, tlc):
         tr, outcome = trace_of(case, seed)
         nsched += 1
         outcomes[outcome] = outcomes.get(outcome, 0) + 1
-        key = json.dumps(tr["ev"], sort_keys=True)
+        key = json.dumps([tr["const"], tr["ev"]], sort_keys=True)
         if key in seen:
             continue
         seen.add(key)
@@ -227,8 +266,13 @@ def stage(ck, tier, seed, tlc):
             del t2["ev"][k]
             break
     t2["id"] = src["id"] + "-dropped"
-    verdicts, st = tlc.validate_traces("Trace_LlcpResolve.tla", "Trace_LlcpResolve.cfg", "C17/res", traces + [t1, t2],
-                                       shards=8, timeout=900)
+    verdicts, st = tlc.validate_traces("Trace_LlcpResolve.tla", "Trace_LlcpResolve.cfg", "C17/res",
+                                       [t for t in traces if t["const"]["miu"] == 128] + [t1, t2], shards=8, timeout=900)
+    big = [t for t in traces if t["const"]["miu"] == 248]
+    if big:
+        v2, st2 = tlc.validate_traces("Trace_LlcpResolve.tla", "Trace_LlcpResolve_248.cfg", "C17/res248", big, shards=4, timeout=900)
+        verdicts.update(v2)
+        st["states"] += st2["states"]
     for t in (t1, t2):
         if verdicts[t["id"]][0] == "ACCEPT":
             raise tlc.TLCError("binding vacuous: corrupted resolver trace %s accepted" % t["id"])
@@ -251,7 +295,8 @@ def replay(rep, tlc):
     import json
     r = rep["replay"]
     tr, outcome = trace_of(r["case"], r["seed"])
-    verdicts, st = tlc.validate_traces("Trace_LlcpResolve.tla", "Trace_LlcpResolve.cfg", "C17_replay", [tr], shards=1)
+    cfg = "Trace_LlcpResolve_248.cfg" if tr["const"]["miu"] == 248 else "Trace_LlcpResolve.cfg"
+    verdicts, st = tlc.validate_traces("Trace_LlcpResolve.tla", cfg, "C17_replay", [tr], shards=1)
     v = verdicts[tr["id"]]
     print("replay verdict:", v, "outcome:", outcome)
     print("events:", json.dumps(tr["ev"])[:1500])
